@@ -636,6 +636,9 @@ type tokAnalysis struct {
 	okSites map[string]string
 	memo    map[string][]tokPair
 	active  map[string]bool
+	// per analysed entry point: how many release transitions were seen (directly or through helpers)
+	curEntry string
+	releases map[string]int
 }
 
 func (ta *tokAnalysis) isRelease(cc *ssa.CallCommon) bool {
@@ -785,6 +788,9 @@ func (ta *tokAnalysis) run(fn *ssa.Function, in tokPair, depth int) []tokPair {
 							note(key, ta.c.pos(x.Pos()), fmt.Sprintf("Release in state %s (deferred release pending: %v) - over-release or release without ownership", st.s, st.deferred), true)
 						}
 					}
+					if final {
+						ta.releases[ta.curEntry]++
+					}
 					st.s = tkN
 					continue
 				}
@@ -797,6 +803,9 @@ func (ta *tokAnalysis) run(fn *ssa.Function, in tokPair, depth int) []tokPair {
 				if callee := staticFn(&x.Call); callee != nil && callee != fn && ta.touches(callee, map[*ssa.Function]bool{}) {
 					res := ta.run(callee, tokPair{st.s, false}, depth+1)
 					if len(res) == 1 {
+						if final && st.s == tkH && res[0].s == tkN {
+							ta.releases[ta.curEntry]++
+						}
 						st.s = res[0].s
 					} else if len(res) > 1 {
 						// ambiguous helper result: keep the worst case visible
@@ -844,6 +853,9 @@ func (ta *tokAnalysis) run(fn *ssa.Function, in tokPair, depth int) []tokPair {
 						} else {
 							note(key, ta.c.pos(x.Pos()), "deferred Release runs in state "+st.s.String(), true)
 						}
+					}
+					if final {
+						ta.releases[ta.curEntry]++
 					}
 					st.s = tkN
 					st.deferred = false
@@ -898,7 +910,7 @@ func (ta *tokAnalysis) run(fn *ssa.Function, in tokPair, depth int) []tokPair {
 func ruleLock4(c *Ctx, r *Reporter) {
 	ta := &tokAnalysis{c: c, r: r,
 		txnF: c.field(pkgLungo, "Engine", "txn"), tokenF: c.field(pkgLungo, "Engine", "token"),
-		problem: map[string]string{}, okSites: map[string]string{}, memo: map[string][]tokPair{}, active: map[string]bool{}}
+		problem: map[string]string{}, okSites: map[string]string{}, memo: map[string][]tokPair{}, active: map[string]bool{}, releases: map[string]int{}}
 	if ta.txnF == nil || ta.tokenF == nil {
 		r.bad("anchor:Engine.txn/token", "-", "fields not found")
 		return
@@ -910,6 +922,7 @@ func ruleLock4(c *Ctx, r *Reporter) {
 			r.bad("anchor:"+name, "-", "function not found")
 			continue
 		}
+		ta.curEntry = name
 		res := ta.run(fn, tokPair{entries[name], false}, 0)
 		for _, p := range res {
 			if p.s == tkH {
@@ -1024,7 +1037,10 @@ func ruleLock4(c *Ctx, r *Reporter) {
 		})
 	}
 	r.guard(acq, 1, "token.Acquire in Begin")
-	r.guard(rel, 4, "token.Release sites in Begin/Commit/Abort")
+	_ = rel
+	for _, name := range []string{"Engine.Begin", "Engine.Commit", "Engine.Abort"} {
+		r.guard(ta.releases[name], 1, "token release reachable in "+name)
+	}
 	r.guard(handover, 1, "e.txn = <transaction> in Begin")
 	r.guard(clear, 2, "e.txn = nil in Commit/Abort")
 }
